@@ -174,8 +174,8 @@ func (h *harness) evaluate(c *Case) *Eval {
 	h.oracles(ev)
 
 	// the theorems' hypothesis on parsed documents: distinct selection nodes have distinct positions
-	if stats.DupPositions > 0 {
-		h.corr(ev, "positions-not-distinct", fmt.Sprintf("%d selection nodes share a (line, column) with an earlier one", stats.DupPositions))
+	if stats.DupPositions > 0 || stats.EmptyKeys > 0 {
+		h.corr(ev, "positions-not-distinct", fmt.Sprintf("%d selection nodes share a (line, column) with an earlier one, %d field selections have an empty response key", stats.DupPositions, stats.EmptyKeys))
 	}
 
 	// model
@@ -390,7 +390,7 @@ func (h *harness) record(c *Case, ev *Eval, family string) {
 		run.Oblige("correspondence: model observable = graphql.Execute observable (ordered data, errors in order)", "correspondence", 1, !(ev.Kind == "correspondence" && ev.Oracle != "leanspec-vs-goref" && ev.Oracle != "positions-not-distinct"), ev.What)
 		run.Oblige("correspondence: Lean Spec (data, all, required) = Go Ref", "correspondence", 1, !(ev.Kind == "correspondence" && ev.Oracle == "leanspec-vs-goref"), ev.What)
 	}
-	run.Oblige("hypothesis: selection nodes of the parsed document have pairwise distinct (line, column)", "srcfact", 1, ev.Oracle != "positions-not-distinct", ev.What)
+	run.Oblige("hypothesis: selection nodes of the parsed document have pairwise distinct (line, column) and non-empty response keys", "srcfact", 1, ev.Oracle != "positions-not-distinct", ev.What)
 }
 
 // check evaluates a case, records it, and on failure shrinks and reports it.
